@@ -225,7 +225,7 @@ def Rodas(dae: nDAE,
                 valueold = np.where(np.asarray(value) == 0, valueold, value)
                 value, isterminal, direction = events(t, ynew)
                 value_save = value
-                ff = np.where(value * valueold < 0)[0]
+                ff = np.where(np.sign(value) * np.sign(valueold) < 0)[0]  # the product of the values may underflow
                 if ff.size > 0:
                     for i in ff:
                         v0 = valueold[i]
@@ -239,7 +239,9 @@ def Rodas(dae: nDAE,
                             iterate = 1
                             tL = told
                             tR = t
-                            if np.abs(v1 - v0) > uround:
+                            # v0 and v1 have opposite signs here, so v1 != v0 whatever the scale of the event function
+                            # (an absolute threshold `> uround` skipped the search for small-valued event functions)
+                            if v1 != v0:
                                 tevent = told - v0 * dt / (v1 - v0)  # initial guess for tevent
                             else:
                                 iterate = 0
@@ -254,11 +256,11 @@ def Rodas(dae: nDAE,
                                 ynext = y0 + tau * dt * K @ (
                                         rparam.b + (tau - 1) * (rparam.c + tau * (rparam.d + tau * rparam.e)))
                                 value, isterminal, direction = events(tevent, ynext)
-                                if v1 * value[i] < 0:
+                                if np.sign(v1) * np.sign(value[i]) < 0:
                                     tL = tevent
                                     tevent = 0.5 * (tevent + tR)
                                     v0 = value[i]
-                                elif v0 * value[i] < 0:
+                                elif np.sign(v0) * np.sign(value[i]) < 0:
                                     tR = tevent
                                     tevent = 0.5 * (tL + tevent)
                                     v1 = value[i]
